@@ -127,12 +127,15 @@ def register(R):
     def wiring_checks(c):
         v = c.new
         cfg = c.newf('_config')
+        cfg = cfg.val if isinstance(cfg, Opt) else cfg
         g = lambda n: v.f(cfg, n)
         req, subm, io = v.obj(c.newf('_request_executor')), v.obj(c.newf('_submission_executor')), v.obj(c.newf('_io_executor'))
         pool = lambda ex: v.st.ghost.get(('pool_workers', ex.fields['_executor'].label))
         tags = v.obj(req.fields['_tag_semaphores']).items
         up, dn = tags.get(('$opaque', 'IN_MEMORY_UPLOAD_TAG')), tags.get(('$opaque', 'IN_MEMORY_DOWNLOAD_TAG'))
+        user_cfg = c.a_config
         return {
+            'the_users_configuration_is_used_when_one_is_given': (z3.Or(user_cfg.is_none, B(cfg is user_cfg.val)) if isinstance(user_cfg, Opt) else B(cfg is user_cfg), ['C10', 'C11', 'C14']),
             'request_stage_threads_and_queue': B(pool(req) is g('max_request_concurrency')
                                                  and sem_count(v, req.fields['_semaphore']) is g('max_request_queue_size')),
             'submission_stage_threads_and_queue': B(pool(subm) is g('max_submission_concurrency')
@@ -163,7 +166,7 @@ def register(R):
 
     R.contract(
         f'{TM}.__init__', props=['C10', 'C11', 'C13', 'C09'],
-        params=dict(client=ExtT('client'), config=ObjT(CFG), osutil=Const(None), executor_cls=Const(None)),
+        params=dict(client=ExtT('client'), config=OptT(ObjT(CFG)), osutil=Const(None), executor_cls=Const(None)),
         self_type=ObjT(TM, _client=Const(None), _config=Const(None), _osutil=Const(None), _coordinator_controller=Const(None),
                        _id_counter=Const(None), _request_executor=Const(None), _submission_executor=Const(None),
                        _io_executor=Const(None), _bandwidth_limiter=Const(None)),
@@ -181,8 +184,49 @@ def register(R):
             out[f'{k}_positive'] = (v > 0) if t is Int else z3.Or(is_none(v), (v.val if isinstance(v, Opt) else v) > 0)
         return out
 
-    R.contract(f'{MG}:TransferConfig._validate_attrs_are_nonzero', props=['C10'], params={},
-               checks=cfg_checks, raises={'ValueError': lambda c: {}})
+    def cfg_bad(c):
+        from .a_submit import CONFIG_FIELDS
+        bad = []
+        for k, t in CONFIG_FIELDS.items():
+            v = c.oldf(k)
+            bad.append((v <= 0) if t is Int else z3.And(z3.Not(is_none(v)), (v.val if isinstance(v, Opt) else v) <= 0))
+        return z3.Or(bad)
+
+    # verified on an UNVALIDATED object (the validity predicate of TransferConfig is what this function establishes)
+    R.contract(f'{MG}:TransferConfig._validate_attrs_are_nonzero', props=['C10', 'C11', 'C14'], params={},
+               self_type=ObjT(f'{MG}:TransferConfig', unvalidated=True),
+               ensures=lambda c: dict(cfg_checks(c)),
+               raises={'ValueError': lambda c: {'some_value_is_not_positive': cfg_bad(c)}},
+               raise_when={'ValueError': cfg_bad}, modifies=lambda c: [])
+
+    def cfg_init_post(c):
+        from .a_submit import CONFIG_FIELDS
+        out = dict(cfg_checks(c))
+        for k in CONFIG_FIELDS:
+            a, f = getattr(c, 'a_' + k), c.newf(k)
+            same = (a is f) or (isinstance(a, Opt) and isinstance(f, Opt) and a.is_none is f.is_none and a.val is f.val)
+            if not same and z3.is_expr(a) and z3.is_expr(f):
+                same = a == f
+            out[f'{k}_is_the_argument'] = same if z3.is_expr(same) else B(bool(same))
+        return out
+
+    from .a_submit import CONFIG_FIELDS as _CF
+
+    def cfg_bad_args(c):
+        from pyvc.values import to_int_term
+        bad = []
+        for k, t in _CF.items():
+            v = getattr(c, 'a_' + k)
+            if isinstance(v, Opt):
+                bad.append(z3.And(z3.Not(v.is_none), v.val <= 0))
+            elif v is not None:
+                bad.append(to_int_term(v) <= 0)
+        return z3.simplify(z3.Or(bad))
+    R.contract(f'{MG}:TransferConfig.__init__', props=['C10', 'C11', 'C14'], params=dict(_CF),
+               self_type=ObjT(f'{MG}:TransferConfig', unvalidated=True, **{k: Const(None) for k in _CF}),
+               ensures=cfg_init_post, raises={'ValueError': lambda c: {'some_argument_is_not_positive': cfg_bad_args(c)}},
+               raise_when={'ValueError': lambda c: cfg_bad_args(c)},
+               effects=lambda c, st: [st.obj(c.self).fields.__setitem__(k, getattr(c, 'a_' + k)) for k in _CF] and None)
 
     # ------------------------------------------------------------------ IO stage typing
     DOM = f'{DL}:DownloadOutputManager'
@@ -207,7 +251,7 @@ def configure(eng):
 
 UST, CST, DST = f'{UP}:UploadSubmissionTask', f'{CP}:CopySubmissionTask', f'{DL}:DownloadSubmissionTask'
 ROOTS = [
-    f'{TM}.__init__', f'{MG}:TransferConfig._validate_attrs_are_nonzero', f'{BE}.submit', f'{TSEM}.acquire', f'{TSEM}.release',
+    f'{TM}.__init__', f'{MG}:TransferConfig._validate_attrs_are_nonzero', f'{MG}:TransferConfig.__init__', f'{BE}.submit', f'{TSEM}.acquire', f'{TSEM}.release',
     f'{SWS}.acquire', f'{SWS}.release',
     f'{UST}._submit_upload_request', f'{UST}._submit_multipart_request', f'{CST}._submit', f'{CST}._submit_copy_request',
     f'{CST}._submit_multipart_request', f'{DST}._submit', f'{DST}._submit_download_request', f'{DST}._submit_ranged_download_request',
